@@ -392,7 +392,15 @@ pub fn run(args: &Args) -> i32 {
             .map(|(i, e, t)| {
                 let (ci2, es, ts) = (*i, format!("{e:?}"), format!("{t:?}"));
                 let _g = crate::evidence::watchdog::enter(move || json!({"engine":"schedmc-c17","case_index":ci2,"entry":es,"transport":ts}));
-                (*i, *e, *t, run_case(&cases[*i], *e, *t, &fx))
+                let r = run_case(&cases[*i], *e, *t, &fx);
+                if *i % 8 == 3 {
+                    let again = run_case(&cases[*i], *e, *t, &fx);
+                    crate::det::AUDITS.fetch_add(1, std::sync::atomic::Ordering::Relaxed);
+                    if again != r {
+                        return (*i, *e, *t, (format!("machinery: the same case executed twice gave {:?} and then {:?}", r, again), vec![]));
+                    }
+                }
+                (*i, *e, *t, r)
             })
             .collect::<Vec<_>>()
     });
@@ -402,6 +410,12 @@ pub fn run(args: &Args) -> i32 {
         for (i, e, t, (outcome, panics)) in chunk {
             n += 1;
             let c = &cases[i];
+            if outcome.starts_with("machinery") {
+                println!("MACHINERY-ERROR {outcome}");
+                let _ = std::panic::take_hook();
+                let _ = run.finish();
+                return 2;
+            }
             classes.insert(format!("{e:?}|{t:?}|{}|{outcome}", c.uri_class));
             if !panics.is_empty() {
                 let loc = panics[0].split(':').take(2).collect::<Vec<_>>().join(":");
